@@ -70,6 +70,9 @@ def graphChecker : Checker String (List String) Unit Unit where
   isSyntax := fun _ => false
   check := fun _ _ _ => []
 
+/-- `!` = a URI outside of the source directory. -/
+def inside (m : String) : Option String := if m == "!" then none else some m
+
 def showOp : Op String Nat → String
   | .update ups => " ".intercalate ("upd" :: ups.map (fun p => p.1 ++ "=" ++ toString p.2))
   | .rename rens => " ".intercalate ("ren" :: rens.map (fun p => p.1 ++ ":" ++ p.2))
@@ -119,12 +122,12 @@ def stepLine (d : D) (line : String) : D × String :=
     -- LSP notification -> the `ServerState` call of the handler (model `glue`), printed as an op line
     let ev : Option (Event String Nat) := match kind with
       | "chg" => match parsePairs "=" args with
-        | [(m, c)] => some (.didChange m c.toNat!)
+        | [(m, c)] => some (.didChange (inside m) c.toNat!)
         | _ => none
       | "cre" => some (.didCreate ((parsePairs "=" args).map (fun p =>
-          (p.1, if p.2 == "?" then none else some p.2.toNat!))))
-      | "ren" => some (.didRename (parsePairs ":" args))
-      | "del" => some (.didDelete (args.map (fun a => if a == "?" then none else some a)))
+          (inside p.1, if p.2 == "?" then none else some p.2.toNat!))))
+      | "ren" => some (.didRename ((parsePairs ":" args).map (fun p => (inside p.1, inside p.2))))
+      | "del" => some (.didDelete (args.map (fun a => if a == "?" || a == "!" then none else some a)))
       | _ => none
     match ev with
     | none => (d, "bad-event")
